@@ -101,7 +101,8 @@ if V_arr2.shape[0] == 1:
 else:
     self._xsec_grid[V_pc, :, V_lc] = V_arr2[1:] + 1e-60
     V_pc += 1
-''', 'self._xsec_grid = self._xsec_grid[:, :, V_sort] * 10000'])
+''', 'self._xsec_grid = self._xsec_grid[:, :, V_sort] * 10000'],
+             under=['V_arr.shape[0] == 1'])
     # table / grid keys for the dictionary formats
     for site, keys in ((OD + 'pickleopacity.py::PickleOpacity._load_pickle_file',
                         {'self._wavenumber_grid': "'wno'", 'self._temperature_grid': "'t'", 'self._xsec_grid': "'xsecarr'"}),
@@ -361,7 +362,8 @@ V_tl.sort()
 self._temperature_grid = np.array(V_tl)
 self.fill_gaps(V_tl)
 self.compute_final_grid()
-''', 'V_obj.add_temperature(V_T, np.array(V_sig))', 'V_obj.wn = np.array(V_wn)'])
+''', 'V_obj.add_temperature(V_T, np.array(V_sig))', 'V_obj.wn = np.array(V_wn)'],
+             under=['True'])
     site = H + '::HitranCIA.compute_final_grid'
     with R.guard('6.hitran.final', 'PERM', site, 'final grid'):
         f = ix.func(site)
